@@ -2,7 +2,10 @@ package rules
 
 import (
 	"fmt"
+	"sort"
 	"strings"
+
+	"golang.org/x/tools/go/ssa"
 
 	"tcheck/ir"
 )
@@ -77,5 +80,103 @@ func O10(rc *RC, floor int) {
 			}
 		}
 		walk(tree, nil)
+	}
+}
+
+// V2: storage extent of layout-preserving copies. copyDense(D, S) is a raw memcpy of S's
+// whole backing array; when D was allocated in the same function its backing array must have
+// S's *storage length* (len/Len/DataSize), not S's element count: a strided view has fewer
+// elements than storage positions, and the copy adopts S's strides.
+func V2(rc *RC, floor int) {
+	rc.S.Declare("V2", "storage extent of raw copies: a destination allocated in the same function for copyDense(D, S) is allocated with S's storage length (S.len(), S.Len(), S.DataSize()), never with its element count", floor)
+	for _, fi := range rc.P.SortedFuncs() {
+		if fi.Pkg != rc.P.Root || fi.Decl.Body == nil || strings.HasSuffix(fi.File, "_test.go") || strings.HasPrefix(fi.File, "sparse") {
+			continue
+		}
+		_, tree := sCanon(rc, fi)
+		txt := ir.Render(tree)
+		if !strings.Contains(txt, "copyDense(") {
+			continue
+		}
+		nodes := flatten(tree)
+		n := 0
+		for i, nd := range nodes {
+			j := strings.Index(nd.Head, "copyDense(")
+			if j < 0 || nd.Kind == "if" || nd.Kind == "loop" || nd.Kind == "range" || nd.Kind == "switch" || nd.Kind == "case" {
+				continue
+			}
+			args := splitArgs(nd.Head[j+len("copyDense(") : strings.LastIndex(nd.Head, ")")])
+			if len(args) != 2 {
+				continue
+			}
+			d, s := args[0], args[1]
+			// the allocation of d in this function, if any (closest preceding)
+			size := ""
+			for k := i - 1; k >= 0; k-- {
+				p := nodes[k]
+				if (p.Kind == "let" || p.Kind == "store") && p.Target == d && strings.HasPrefix(p.Value, "recycledDense(") {
+					a := splitArgs(p.Value[len("recycledDense(") : strings.LastIndex(p.Value, ")")])
+					if len(a) >= 2 && strings.HasPrefix(a[1], "tensor.Shape{") {
+						size = strings.TrimSuffix(strings.TrimPrefix(a[1], "tensor.Shape{"), "}")
+					}
+					break
+				}
+				if strings.HasPrefix(p.Head, d+".makeArray(") {
+					size = p.Head[len(d+".makeArray(") : strings.LastIndex(p.Head, ")")]
+					break
+				}
+			}
+			if size == "" {
+				continue // destination not allocated here (caller's tensor): rules LC/LG guard those
+			}
+			n++
+			key := fmt.Sprintf("%s#copyDense%d", fi.Key, n)
+			ok := size == s+".len()" || size == s+".Len()" || size == s+".DataSize()"
+			if ok {
+				rc.S.Ok("V2", key, rc.P.Pos(nd.Pos), "destination allocated with "+size)
+			} else {
+				rc.S.Viol("V2", key, rc.P.Pos(nd.Pos), fmt.Sprintf("%s is allocated with %s elements and then receives a raw copy of %s's whole backing array: the storage length of %s is %s.len() (a strided view has fewer elements than storage positions)", d, size, s, s, s)).Sig = "size " + size
+			}
+		}
+	}
+}
+
+// O4: nobody recycles what it was handed. A metadata slice ([]int, Shape, []bool) received as
+// a parameter belongs to the caller (it is usually the live shape or strides of a tensor);
+// only the designated recyclers may put a parameter into the pool. For every function of the
+// package - exported or not - the fixpoint summary "parameter i reaches ReturnInts/ReturnBools"
+// must be empty, except for the recyclers themselves and the listed hand-over helpers.
+var o4Recyclers = map[string]string{
+	"tensor.ReturnInts":  "the recycler",
+	"tensor.ReturnBools": "the recycler",
+}
+
+func O4(rc *RC, a *oAnalysis, floor int) {
+	rc.S.Declare("O4", "no function returns a metadata slice it received as a parameter to the ints/bools pool (the slice is the caller's - typically a live tensor's shape); only the recyclers themselves do", floor)
+	var fns []*ssa.Function
+	for _, fn := range a.fns {
+		fns = append(fns, fn)
+	}
+	sort.Slice(fns, func(i, j int) bool { return oFnKey(fns[i]) < oFnKey(fns[j]) })
+	for _, fn := range fns {
+		if fn.Parent() != nil || strings.HasPrefix(a.p.FileOf(fn.Pos()), "sparse") || strings.HasSuffix(a.p.FileOf(fn.Pos()), "_test.go") {
+			continue
+		}
+		for pi, p := range fn.Params {
+			if !isMetaSlice(p.Type()) {
+				continue
+			}
+			key := fmt.Sprintf("%s(%s)", oFnKey(fn), p.Name())
+			why, bad := a.poolRet[fn][pi]
+			if !bad {
+				rc.S.Ok("O4", key, a.p.Pos(fn.Pos()), "parameter is not recycled").Trivial = true
+				continue
+			}
+			if r, ok := o4Recyclers[oFnKey(fn)]; ok {
+				rc.S.Ok("O4", key, a.p.Pos(fn.Pos()), r)
+				continue
+			}
+			rc.S.Viol("O4", key, a.p.Pos(fn.Pos()), fmt.Sprintf("%s puts its parameter %s into the pool (%s): the slice belongs to the caller", oFnKey(fn), p.Name(), why)).Sig = "recycles " + p.Name()
+		}
 	}
 }
